@@ -33,7 +33,7 @@ THEOREMS = ["PyOak.C15." + t for t in [
     "overlaps_symm", "overlaps_iff", "overlaps_touching", "overlaps_of_contains", "lt_iff", "lt_not_overlaps",
     "not_overlaps_iff", "add_contains_left", "add_contains_right", "add_least", "add_index", "add_valid",
     "rangeAdd_ok", "add_comm_index", "add_comm", "add_assoc_index", "add_assoc", "add_idem", "add_absorb_index",
-    "get_code_range_eq", "empty_range_eq", "codeAdd_narrow", "codeAdd_some", "codeAdd_none",
+    "get_code_range_eq", "empty_range_eq", "codeAdd_narrow", "codeAdd_some", "codeAdd_none", "codeAdd_other_none",
     # merge / + / concat / MultiOrigin / fqn / get_raw (hand model)
     "mkMulti_spec", "mkMulti_short", "merge_single", "merge_spec", "merge_ok", "merge_flat_spec", "merge_flat",
     "merge_flat_cases", "add_eq_merge", "add_code_same_source_overlap", "getRaw_code", "add_code_get_raw",
